@@ -71,6 +71,33 @@ def check_all(ctx, facts):
         es = fn.switch_edges(sb, want)
         edges |= set(es)
         bound = ub if bound is None else max(bound, ub)
+    if not edges:
+        # the size test turned into an Option: `(bytes.len() < MAX).then_some(bytes)` matched later -- Some means "fits".
+        # The buffer measured and the buffer sent are the same serialize() result.
+        sent_src = prov.of_operand(fn, fn.term(S)["args"][1])
+        ser_blocks = {v[2] for o in sent_src for v in o.via if v[0] == "call" and v[1].endswith("JaegerReporter::serialize")}
+        for sb in range(len(fn.blocks)):
+            info = fn.switch_info(sb)
+            if not info or info.get("kind") != "discr" or "Option<" not in info["ty"] or fn.blocks[sb]["cleanup"]:
+                continue
+            for o in prov.of_place(fn, info["place"]):
+                th = [v for v in o.via if v[0] == "call" and re.search(r"bool>?::(then_some|then)$", v[1])]
+                if not th or th[0][2] >= len(fn.blocks) or fn.blocks[th[0][2]]["term"].get("callee") != th[0][1]:
+                    continue
+                cond = fn.term(th[0][2])["args"][0]
+                for c in prov.of_operand(fn, cond):
+                    cmpv = [v for v in c.via if v[0] == "binop" and v[1] in ("Lt", "Le", "Gt", "Ge") and v[2] is not None]
+                    lens = [v for v in c.via if v[0] == "call" and re.search(r"Vec::<T, A>::len$|slice::<impl \[T\]>::len$", v[1])]
+                    same = any(v[0] == "call" and v[2] in ser_blocks for v in c.via)
+                    if not cmpv or not lens or not same or c.kind == "const":
+                        continue
+                    opn, K, side = cmpv[0][1], cmpv[0][2], (cmpv[0][3] if len(cmpv[0]) > 3 else "a")
+                    if side == "b":      # the length is the right operand: K <op> len
+                        opn = {"Lt": "Gt", "Le": "Ge", "Gt": "Lt", "Ge": "Le"}[opn]
+                    if opn in ("Lt", "Le"):      # Some <=> len < K (or <= K)
+                        edges |= set(fn.variant_edges(sb, ["Some"]))
+                        ub = K - 1 if opn == "Lt" else K
+                        bound = ub if bound is None else max(bound, ub)
     ok = bool(edges) and fn.guarded([S], edges) and bound is not None and bound <= LIMIT - 1
     ctx.check(ok, "R1", TR, fn.loc(S),
               "the datagram is sent only across an edge on which its encoded length is at most %d bytes" % (LIMIT - 1),
